@@ -43,11 +43,20 @@ JMinimise(e) ==
   IN Bad("valid_dfa", ~valid)
      \cup Bad("same_alphabet", M.S # D.S)
      \cup Bad("input_unchanged", e.post # e.fa)
-     \cup (IF valid
+     \cup (IF valid /\ "big" \notin DOMAIN e
            THEN Bad("equivalent_exact", ~FaEquiv(D, M))
                 \cup Bad("pairwise_distinguishable", ~PairwiseDistinguishable(M))
                 \cup Bad("count_between_bounds",
                          ~(NerodeClasses(D, Reach(D)) <= n /\ n <= NerodeClasses(D, D.Q)))
+           ELSE IF valid
+           THEN (* automata with dozens of states: the classes by Moore's refinement (FA!MoorePartition, *)
+                (* cross-checked against the two other formulations in Lemmas.tla)                      *)
+                LET P == MoorePartition(D)
+                    R == Reach(D)
+                IN Bad("equivalent_exact", ~FaEquiv(D, M))
+                   \cup Bad("pairwise_distinguishable", Cardinality(MoorePartition(M)) # n)
+                   \cup Bad("count_between_bounds",
+                            ~(Cardinality({B \cap R : B \in P} \ {{}}) <= n /\ n <= Cardinality(P)))
            ELSE {})
 
 -----------------------------------------------------------------------------
